@@ -1,5 +1,5 @@
 (* C08 - The engine always answers go and stays responsive (protocol logic; timing is measured). *)
-From Walleye Require Import Model.Uci Proofs.SessionProofs.
+From Walleye Require Import Model.Uci Proofs.SessionProofs Proofs.AlwaysAnswered.
 Open Scope Z_scope.
 
 (* checkmate / stalemate: one null-move answer, the session state is unchanged *)
@@ -26,6 +26,22 @@ Theorem C08_isready_after : forall zt osort st raw sc,
   step zt osort st (Line raw) sc = (st, [s_readyok]).
 Proof. exact isready_answered. Qed.
 
+(* "a go is answered with a bestmove line ... however the search and I/O threads are scheduled": on the session model
+   a schedule is the expiry index of the clock and the index of the send the polling loop holds when it leaves; for
+   every such schedule, in a position with at least one move, the go step prints one bestmove line (after its info
+   lines) and the session keeps running from the move printed - the search never hands nothing back *)
+Theorem C08_go_is_answered_under_every_schedule : forall zt osort,
+  (forall i l, l <> [] -> osort i l <> []) ->
+  forall st cmds sc gt st' outs,
+  NULL_PLY_OFFSET * Z.of_nat (sc_fuel sc) + 1 <= 2 * MATE_SCORE ->
+  parse_go_command cmds = Ok gt -> generate_moves zt (ss_board st) AllMoves <> [] ->
+  go_step zt osort st cmds sc = (st', outs) -> ss_phase st' = Running ->
+  exists ev s b t,
+    get_best_move zt osort (sc_k sc) (sc_fuel sc) (ss_board st) (ss_table st) = Ok (ev, s) /\
+    In b (sends_of ev) /\ best_move_text b = Ok t /\ ss_board st' = b /\ outs = infos_of ev ++ [s_bestmove ++ t].
+Proof. exact go_is_answered. Qed.
+
 Print Assumptions C08_terminal_is_answered.
+Print Assumptions C08_go_is_answered_under_every_schedule.
 Print Assumptions C08_answered_iff_sent.
 Print Assumptions C08_isready_after.
